@@ -56,9 +56,10 @@ class NodeLib(LibBase):
     def __init__(self):
         super().__init__()
         self.contracts = {k: {} for k in PROFILES}
-        from contracts import nodes_sl, nodes_proc
+        from contracts import nodes_sl, nodes_proc, nodes_utils
         nodes_sl.install(self)
         nodes_proc.install(self)
+        nodes_utils.install(self)
 
     def classes(self):
         return [k for k in PROFILES if self.contracts[k]]
@@ -217,6 +218,9 @@ class NodeLib(LibBase):
     def yield_spec(self, cls, fname, con, old, args):
         if con.is_generator:
             from contracts import nodes_proc
+            cy = getattr(con, "custom_yields", None)
+            if cy:
+                return cy(self, cls, con, old, args)
             return nodes_proc.Yields(self, cls, con, old, args)
         return None
 
